@@ -593,13 +593,19 @@ Qed.
 
 Lemma init_x_spec c0 tIn tOut L T r sm w :
   (pre tIn tOut L r sm w ->
-     g3_init_x e c0 tIn tOut L T r sm w = (g3_init e c0 tIn tOut L T r sm w, true)) /\
-  (~ pre tIn tOut L r sm w -> g3_init_x e c0 tIn tOut L T r sm w = (c0, false)).
+     g3_init_x e c0 tIn tOut L T r sm w true = (g3_init e c0 tIn tOut L T r sm w, true)) /\
+  (~ pre tIn tOut L r sm w -> forall b, g3_init_x e c0 tIn tOut L T r sm w b = (c0, false)) /\
+  snd (g3_init_x e c0 tIn tOut L T r sm w false) = false.
 Proof.
   destruct (upd_x_spec (params c0) tIn tOut L r sm w) as [A B].
-  unfold g3_init_x, g3_init. split; intro H.
-  - rewrite (A H). cbv beta iota zeta. cbn [fst snd]. reflexivity.
-  - rewrite (B H). cbv beta iota zeta. cbn [fst snd]. rewrite upd_params_id. reflexivity.
+  unfold g3_init_x, g3_init, g3_base_init_x, g3_base_init.
+  split; [|split].
+  - intro H. cbv beta iota zeta. rewrite ?(A H). cbv beta iota zeta. cbn [fst snd]. reflexivity.
+  - intros H b. destruct b; cbv beta iota zeta; rewrite ?(B H); cbv beta iota zeta; cbn [fst snd];
+    rewrite ?upd_params_id; reflexivity.
+  - destruct (Classical_Prop.classic (pre tIn tOut L r sm w)) as [H | H]; cbv beta iota zeta.
+    + rewrite ?(A H). cbv beta iota zeta. cbn [fst snd]. reflexivity.
+    + rewrite ?(B H). cbv beta iota zeta. cbn [fst snd]. reflexivity.
 Qed.
 
 (** histories in which some calls are rejected (the caller catches the error) *)
@@ -942,11 +948,18 @@ Theorem rejected_call_leaves_object_unchanged : forall e c tIn tOut L w,
 Proof. intros. apply changePos_x_spec. Qed.
 Print Assumptions rejected_call_leaves_object_unchanged.
 
+(** the constructor: completes (and is the modelled constructor) under the parameter
+    precondition when the `spacing` keyword is valid; a call rejected by a PARAMETER assertion
+    leaves the object untouched; an invalid `spacing` is always rejected.  (What a re-run of
+    __init__ rejected by the spacing check leaves behind is NOT claimed: on the current code the
+    scales are already stored then -- known finding reinit-rejected-by-spacing-half-updated;
+    the model keeps that check at its position with an opaque truth value.) *)
 Theorem constructor_exits : forall e c0 tIn tOut L T r sm w,
   (g3__updateParameters_pre tIn tOut L r sm w ->
-     g3_init_x e c0 tIn tOut L T r sm w = (g3_init e c0 tIn tOut L T r sm w, true)) /\
+     g3_init_x e c0 tIn tOut L T r sm w true = (g3_init e c0 tIn tOut L T r sm w, true)) /\
   (~ g3__updateParameters_pre tIn tOut L r sm w ->
-     g3_init_x e c0 tIn tOut L T r sm w = (c0, false)).
+     forall b, g3_init_x e c0 tIn tOut L T r sm w b = (c0, false)) /\
+  snd (g3_init_x e c0 tIn tOut L T r sm w false) = false.
 Proof. exact init_x_spec. Qed.
 Print Assumptions constructor_exits.
 
@@ -1033,9 +1046,15 @@ Qed.
 Print Assumptions g3_ends.
 
 (** facts about the rest of the package, extracted on this run *)
-Theorem grid_written_only_by_its_methods : foreign_grid_writes = 0%nat.
+Theorem no_foreign_write_found_by_the_scan : foreign_grid_writes = 0%nat.
 Proof. reflexivity. Qed.
-Print Assumptions grid_written_only_by_its_methods.
+Print Assumptions no_foreign_write_found_by_the_scan.
+
+(** simple grid: an invalid `spacing` is rejected, a valid one gives the modelled constructor *)
+Theorem simple_constructor_exits : forall e c L T,
+  g_init_x e c L T true = (g_init e c L T, true) /\ snd (g_init_x e c L T false) = false.
+Proof. intros. split; reflexivity. Qed.
+Print Assumptions simple_constructor_exits.
 
 (** EOM._updateGrid calls changePositionFalloffScale with admissible arguments whenever the
     thickness it computed is positive (its tails are max(.., L (1/2 + k sm)/r) with k > 1) *)
